@@ -174,6 +174,30 @@ def op_crc(r, tier, align=None):
     return "crc %d %s" % (r.below(16) if align is None else align, " ".join(chunks) if chunks else "-")
 
 
+def reg(r):
+    k = r.below(6)
+    if k == 0:
+        return bytes(16)
+    if k == 1:
+        return b"\xff" * 16
+    if k == 2:
+        return bytes([0x80, 0, 0, 0x80] * 4)
+    return r.bytes(16)
+
+
+INSNS = [("rnds2", 3), ("msg1", 2), ("msg2", 2), ("alignr4", 2), ("srli64_17", 1), ("srli64_19", 1)]
+
+
+def op_insn(r):
+    """one machine instruction on random/extreme operands: model's SDM transcription vs the CPU (L2)"""
+    if r.chance(1, 3):
+        st = r.choice([bytes(4), b"\xff" * 4, r.bytes(4), r.bytes(4)])
+        n = r.choice([1, 4, 8])
+        return "insn crc32 %s %s" % (hx(st), hx(data(r, n)))
+    name, n = r.choice(INSNS)
+    return "insn %s %s" % (name, " ".join(hx(reg(r)) for _ in range(n)))
+
+
 def shared_corpus(prefix):
     d = os.path.join(vlib.VERIF, "corpus", "C03")
     cases = []
@@ -201,6 +225,8 @@ def gen_hash(weight):
                     ops.append(op_sha(r, tier))
                 elif k < 45:
                     ops.append(op_xform(r))
+                elif k < 53:
+                    ops.append(op_insn(r))
                 else:
                     ops.append(op_crc(r, tier, align=(ci + r.below(2)) % 16))
             cases.append(ops)
@@ -268,7 +294,7 @@ def classify_for(build):
                 tags.append("%s:%s[%s]" % (build, o.split(" | ")[0], o.split(" | ")[1]))
         for o in case:
             t = o.split()
-            tags.append("op:" + t[0])
+            tags.append("op:" + t[0] + (":" + t[1] if t[0] == "insn" else ""))
             if t[0] == "crc":
                 tags.append("crc-align:%s" % t[1])
                 lens = [0 if c == "-" else len(c) // 2 for c in t[2:]]
@@ -307,6 +333,7 @@ def components(ctx):
                  "buffer alignments 0..15 (swept x lengths 0..24), lengths around 7/8/9, 15/16/17, 55/56, 63/64/65, 119/120, up to 5000; "
                  "call partitions alternating below/above the 8-byte (CRC) and 64-byte (SHA) thresholds incl. 0-length calls; "
                  "1 case in 3 pins the accelerated variants (`force`), the others run the cpuid+self-test selection (`path`); "
+                 "single instructions (CRC32 8/32/64, SHA256RNDS2/MSG1/MSG2, PALIGNR, PSRLQ) on random/extreme operands against the model's SDM transcription (L2); "
                  "L1 = Spec.Sha256 / Spec.Crc32c; non-trivial = at least one hash op; distinct by hash of the op list"
                  % (name, "+".join(feats) or "-", " ".join(paths)),
             cpu=cpu, extra=extra, ldflags=["-lcrypto"], classify=classify_for(name)))
